@@ -27,15 +27,41 @@ def mixed_for(tier):
     return fn
 
 
+def faulted_for(tier):
+    """pairs that contend on one identifier, explored together with one I/O error injected at a symbolic global
+    operation index: the failing call must still release and notify, the waiting call must not sleep forever"""
+    def fn(w):
+        def pairs():
+            return [([step.StoreObj(0, 0), step.StoreObj(1, 0)], MIX_INITS[0]),
+                    ([step.Delete(0), step.StoreObj(1, 0)], ("a bound to X", {"bind_0": 0, "obj_0": True})),
+                    ([step.StoreMeta(0, 0, None), step.StoreMeta(0, 1, None)], MIX_INITS[1]),
+                    ([step.Delete(0), step.DeleteMeta(0, None, all_docs=True)], MIX_INITS[1])]
+        out = []
+        for calls, (iname, init) in pairs()[:(4 if tier == "thorough" else 2)]:
+            out.append(("%s || from: %s || one I/O error" % (" || ".join(c.label for c in calls), iname), init, calls))
+        return out
+    return fn
+
+
 def main(tier, replay_payload=None):
     bound = 2 if tier == "thorough" else 1
-    fams = {"C07": (C07.W_ARGS, C07.scenarios_for(tier)), "C12": (C12.W_ARGS, C12.scenarios_for(tier)),
+    def subset(fn, keep):
+        # quick tier: lock behaviour hardly depends on the starting state; half of the states of each family
+        if tier == "thorough":
+            return fn
+        return lambda w: [sc for sc in fn(w) if any(sc[0].endswith("from: " + k) for k in keep)]
+    fams = {"C07": (C07.W_ARGS, subset(C07.scenarios_for(tier), ["empty store", "a and b share X", C07.WAKE_INIT[0]])),
+            "C12": (C12.W_ARGS, subset(C12.scenarios_for(tier), ["no document", "a bound to X, document (a,c) present",
+                                                                 "document (a,c) present"])),
             "mixed": (MIX_ARGS, mixed_for(tier))}
     f_args = C13.c13_universe(tier)
 
     def replayer(p):
         if p.get("harness") == "fault":
             return fault.replay_fault(f_args, fault_menu, p["vals"], p["clauses"])
+        if p.get("family") == "faulted":
+            return conc.replay_schedule(MIX_ARGS, faulted_for(tier), p["k"], p["log"], p["bound"], p["clauses"][0],
+                                        fault_at=p.get("fault_at"))
         a, fn = fams[p["family"]]
         return conc.replay_schedule(a, fn, p["k"], p["log"], p["bound"], p["clauses"][0])
     if replay_payload is not None:
@@ -51,14 +77,21 @@ def main(tier, replay_payload=None):
             run.failures[sig]["payload"]["family"] = fam
     from engine import battery
     battery.validate(run)
+    outs = conc.explore_scenarios(MIX_ARGS, faulted_for(tier), 1, with_fault=True)
+    before = set(run.failures)
+    C07.fold(run, outs, "C08:", 1)
+    for sig in set(run.failures) - before:
+        run.failures[sig]["payload"]["family"] = "faulted"
     res = fault.explore_faults(f_args, fault_menu, 1)
     C13.fold(run, res, "C08:")
     run.functions = loader.function_lines(loader.load(), API_FUNCS + [
         "FileHashStore._synchronize_object_locked_pids", "FileHashStore._release_object_locked_pids",
         "FileHashStore._synchronize_object_locked_cids", "FileHashStore._release_object_locked_cids",
         "FileHashStore._synchronize_referenced_locked_pids", "FileHashStore._release_reference_locked_pids"])
-    run.bounds = dict(schedules="all C07 and C12 pair scenarios + 20 mixed pairs, preemption bound %d" % bound,
-                      faults="every single call of the C13 menu with one injected I/O error (once / persistent)",
+    run.bounds = dict(schedules="C07 and C12 pair scenarios (quick: from half of the starting states; thorough: all) + "
+                                "20 mixed pairs, preemption bound %d" % bound,
+                      faults="every single call of the C13 menu with one injected I/O error (once / persistent); "
+                             "2 (4) contending pairs at preemption bound 1 with one I/O error at a symbolic operation",
                       step_budget=4000)
     run.explanation = ("Deadlock is decided by the explored interleavings themselves: an execution in which some thread is "
                        "alive and none is enabled is a deadlock (locks are modelled by object identity, so the "
